@@ -436,7 +436,7 @@ pub fn run(cfg: &Cfg, rep: &mut Report) {
       }
     }
   }
-  let total = cfg.n(150_000, 6_000_000);
+  let total = cfg.n(150_000, 18_000_000);
   let kmax = cfg.n(3, 5);
   let mut rng = Rng::new(cfg.seed ^ 0xC05);
   for i in 0..total {
@@ -449,6 +449,6 @@ pub fn run(cfg: &Cfg, rep: &mut Report) {
   }
 
   // thread part: outer, inner and unsubscribing threads on merge_all_threads (baton scheduler)
-  let n = cfg.n(6_000, 250_000);
+  let n = cfg.n(6_000, 600_000);
   super::thr::campaign(cfg, rep, "thr", n, 0xC05F, &mut |r: &mut Rng| super::thr::random_scen(r, 9), &|o, s| super::thr::flatten_oracle(o, s));
 }
